@@ -36,11 +36,10 @@ def build(repo_copy, workdir, asan=True, cc="gcc", name="futex_sched"):
     return exe
 
 
-ENV = {"ASAN_OPTIONS": "detect_leaks=0:abort_on_error=0:exitcode=66", "UBSAN_OPTIONS": "halt_on_error=1:exitcode=67"}
+ENV = {"ASAN_OPTIONS": "detect_leaks=0:abort_on_error=0:exitcode=66:quarantine_size_mb=8", "UBSAN_OPTIONS": "halt_on_error=1:exitcode=67"}
 
 
-def run_lines(exe, lines, timeout=1800):
-    """Feed request lines; returns list (per request) of lists of reply lines."""
+def _run_chunk(exe, lines, timeout):
     env = dict(os.environ)
     env.update(ENV)
     p = subprocess.run([exe], input="\n".join(lines) + "\n", stdout=subprocess.PIPE, stderr=subprocess.PIPE,
@@ -63,6 +62,28 @@ def run_lines(exe, lines, timeout=1800):
             res.append([out[i]] if i < len(out) else [])
             i += 1
     return res
+
+
+def run_lines(exe, lines, timeout=1800, chunk=600, jobs=4):
+    """Feed request lines; returns list (per request) of lists of reply lines.  The requests are split over several
+    harness processes (a long-lived ASan parent forks ever more slowly as its quarantine fills), `jobs` at a time;
+    the result does not depend on the split."""
+    from concurrent.futures import ThreadPoolExecutor
+    chunks, cur, weight = [], [], 0
+    for ln in lines:
+        w = 150 if ln.startswith("dfs ") else 1
+        if cur and weight + w > chunk:
+            chunks.append(cur)
+            cur, weight = [], 0
+        cur.append(ln)
+        weight += w
+    if cur:
+        chunks.append(cur)
+    if not chunks:
+        return []
+    with ThreadPoolExecutor(max_workers=jobs) as ex:
+        parts = list(ex.map(lambda c: _run_chunk(exe, c, timeout), chunks))
+    return [r for part in parts for r in part]
 
 
 def parse_reply(line):
